@@ -1,6 +1,9 @@
 import OdcGeo.Drv.C19
 import OdcGeo.Model.C19Glue
 import OdcGeo.Model.C19Alias
+import OdcGeo.Model.C19Unified
+import OdcGeo.Model.C19Units
+import OdcGeo.Model.C19Like
 /-!
 Driver for the glue layer of C19 (`c19 glue <op> …`); everything else goes to `Drv.C19.run`.
 
@@ -256,6 +259,74 @@ def runAlias (args : List String) : Option String :=
     | _ => none
   | _ => none
 
+
+/-! ### the unified state (`c19 uhist …`), units / dimensions (`c19 units …`) -/
+
+def parseUOp? (s : String) : Option UOp :=
+  match s.splitOn ";" with
+  | ["hh", h, v] => do pure (.hold (← parseNat? h) (← parseNat? v))
+  | ["hn", h] => do pure (.holdNone (← parseNat? h))
+  | ["rh", h2, h] => do pure (.rehold (← parseNat? h2) (← parseNat? h))
+  | ["he", a, b] => do pure (.heq (← parseNat? a) (← parseNat? b))
+  | ["dl", v] => do pure (.del (← parseNat? v))
+  | _ => (parseOp? s).map .core
+
+def parseKind? : String → Option CrsKind
+  | "G" => some .geographic | "P" => some .projected | "O" => some .other | _ => none
+
+def parseAxis? (s : String) : Option Axis :=
+  match s.splitOn ";" with
+  | [d, a, u] => some ⟨d, a, u⟩
+  | _ => none
+
+def runUnified (args : List String) : Option String :=
+  match args with
+  | ["uhist", ts, es, ops] => do
+    let ts ← parseList? parseTextEntry? ts
+    let es ← parseList? parseEpsgEntry? es
+    let ops ← parseList? parseUOp? ops
+    pure (",".intercalate ((urun (mkWorld ts es) ops).2.map fmtOut))
+  | ["units", k, axes] => do
+    let r := unitsOf (← parseKind? k) (← parseList? parseAxis? axes)
+    pure (fmtRes (fun p => s!"{p.1}~{p.2}") r)
+  | ["dims", k] => do pure (fmtRes (fun (p : String × String) => s!"{p.1}~{p.2}") (dimensionsOf (← parseKind? k)))
+  | _ => none
+
+
+/-! ### hashable CRS-like objects as cache keys (`c19 like …`) -/
+
+structure LikeRun where
+  σ : LState := {}
+  vars : List (Nat × CrsObj) := []
+  outs : List String := []
+
+def likeStep (W : World) (r : LikeRun) (s : String) : Option LikeRun :=
+  match s.splitOn ";" with
+  | ["l", v, lid, wkt, pick] => do
+    let v ← parseNat? v
+    let res := constructLike W r.σ (← parseNat? lid) wkt (← parseNat? pick)
+    match res.2 with
+    | .ok c => pure { σ := res.1, vars := setVar v c r.vars, outs := r.outs ++ [s!"s:{c.str}"] }
+    | .error e => pure { r with σ := res.1, outs := r.outs ++ [e.toStr] }
+  | ["same", a, b] => do
+    let ca ← assoc (← parseNat? a) r.vars
+    let cb ← assoc (← parseNat? b) r.vars
+    pure { r with outs := r.outs ++ [fmtBool (ca.obj == cb.obj)] }
+  | ["eq", a, b] => do
+    let ca ← assoc (← parseNat? a) r.vars
+    let cb ← assoc (← parseNat? b) r.vars
+    pure { r with outs := r.outs ++ [fmtBool (crsEq ca cb)] }
+  | _ => none
+
+def runLike (args : List String) : Option String :=
+  match args with
+  | ["like", ts, ops] => do
+    let ts ← parseList? parseTextEntry? ts
+    let ops ← parseListRaw? ops
+    let r ← ops.foldlM (likeStep (mkWorld ts [])) {}
+    pure (",".intercalate r.outs ++ s!" likes={r.σ.likes.length}")
+  | _ => none
+
 /-- `pair atiles <T by bx ty tx | V y x> <same>`: the two representations of a tiling compared with each other -/
 def runPairAnyTiles (xs : List String) : Option String := do
   let (a, rest) ← parseAnyTiles? xs
@@ -271,6 +342,10 @@ def runAll (args : List String) : Option String :=
   match args with
   | "glue" :: rest => runGlue rest
   | "alias" :: rest => runAlias rest
+  | "uhist" :: _ => runUnified args
+  | "like" :: _ => runLike args
+  | "units" :: _ => runUnified args
+  | "dims" :: _ => runUnified args
   | "pair" :: "atiles" :: rest => runPairAnyTiles rest
   | _ => run args
 
